@@ -807,6 +807,9 @@ class UnitDatabase(Singleton):
             self.unit_to_unit_info[unit] = info
         # A unit looked up before being registered was memoized as invalid for its categories.
         self._category_unit_valid.clear()
+        # A request that spelled this symbol before it was registered may have been interned as a
+        # legacy alias of another unit (e.g. 'Ns/m' for 'N.s/m'): it must be resolved again.
+        self.quantities_cache.clear()
         quantity_type_list = self.quantity_types.setdefault(quantity_type, [])
 
         if unit in [q.unit for q in quantity_type_list]:
